@@ -302,6 +302,18 @@ def one_roundtrip(obs, rng, conv, off, spec):
     opened = []
     try:
         ds = model.encode()
+        if has_time and conv in ('shoc_standard', 'shoc_simple') and chance(rng, 0.4):
+            # SHOC names its record variable ('t' / 'time'); another decoded time-like variable (the start of the model
+            # run, say) that comes FIRST in the file must not be mistaken for it
+            extra = xarray.Dataset({'run_start': xarray.DataArray(numpy.datetime64('2019-12-31T12:00:00', 'ns'),
+                                                                  attrs={'long_name': 'start of the model run'})})
+            extra['run_start'].encoding.update({'units': 'hours since 2000-01-01 00:00:00', 'dtype': 'float64'})
+            merged = xarray.Dataset({**{n: extra[n].variable for n in extra.variables},
+                                     **{n: ds.variables[n] for n in ds.variables if n not in ds.coords}},
+                                    coords={n: ds.variables[n] for n in ds.coords}, attrs=dict(ds.attrs))
+            if list(merged.variables)[0] == 'run_start' and merged.identical(ds.assign(run_start=extra['run_start'])):
+                ds = merged
+                obs.cls('roundtrip:other-time-variable-first')
         if source_kind == 'disk':
             obs.cls('roundtrip:source-opened-from-disk')
             # a file written by plain xarray (trusted) without automatic fill values, whose units attribute is then
@@ -353,6 +365,19 @@ def one_roundtrip(obs, rng, conv, off, spec):
         if not isinstance(r, Failed):
             check_file(obs, model, path_b, fills, 'to_netcdf_with_fixes', has_time, how != 'none', period, truth, counts,
                        spec, opened)
+        # ---- C: one time slice: the time coordinate is a scalar, still "the time coordinate" -------------------------
+        if has_time and chance(rng, 0.5):
+            k = int(rng.integers(model.time['size']))
+            tname, tdim = model.time['name'], model.time['dim']
+            with quiet_warnings():
+                one = obs.call('dataset.isel(time=k)', lambda: src.isel({tdim: k}))
+            if not isinstance(one, Failed) and tname in one.variables and one[tname].ndim == 0:
+                obs.cls('roundtrip:single-time-slice')
+                path_c = os.path.join(tmp, 'c.nc')
+                with quiet_warnings():
+                    r = obs.call('dataset.isel(time=k).ems.to_netcdf', lambda: one.ems.to_netcdf(path_c), mech=save_mech(off, has_time))
+                if not isinstance(r, Failed):
+                    check_time_slice(obs, model, path_c, k, period, truth, spec)
     finally:
         for d in opened:
             try:
@@ -360,6 +385,31 @@ def one_roundtrip(obs, rng, conv, off, spec):
             except Exception:  # noqa: BLE001
                 pass
         shutil.rmtree(tmp, ignore_errors=True)
+
+
+def check_time_slice(obs, model, path, k, period, truth, spec):
+    """A saved single time slice: units of the (scalar) time variable in the EMS form, same reference instant, same instant."""
+    import netCDF4
+    with netCDF4.Dataset(path, 'r') as nc:
+        nc.set_auto_maskandscale(False)
+        tname = model.time['name']
+        if not obs.expect(tname in nc.variables, 'time variable is present in the saved time slice', mech='time-slice'):
+            return
+        tvar = nc.variables[tname]
+        on_disk = tvar.getncattr('units') if 'units' in tvar.ncattrs() else None
+        form_ok = isinstance(on_disk, str) and re.match('^' + re.escape(period) + EMS_FORM, on_disk) is not None
+        obs.expect(form_ok, 'time units attribute of a saved single time slice has the EMS form',
+                   lambda: {'requested': model.time['units'], 'on disk': on_disk, 'time dims': tvar.dimensions}, mech='units-on-disk-form')
+        if not form_ok:
+            return
+        parsed = contracts.parse_time_units(on_disk, strict=True)
+        obs.expect(parsed == (period, truth), 'time units of the saved time slice denote the requested reference instant and period',
+                   lambda: {'on disk': on_disk, 'got': parsed, 'want': (period, truth)}, mech='units-on-disk-instant')
+        raw = numpy.asarray(tvar[...]).reshape(-1)
+        want = int(model.time['values'].astype('int64')[k])
+        got = parsed[1] * 10 ** 9 + int(numpy.round(raw[0])) * tu.PERIOD_NS.get(parsed[0], 0) if raw.size == 1 else None
+        obs.expect(got == want, 'stored time number x period + reference instant = the instant of the slice',
+                   lambda: {'on disk': on_disk, 'raw': raw, 'got': got, 'want': want}, mech='time-instants-raw')
 
 
 def shoc_simple_order_defect(back):
